@@ -60,8 +60,12 @@ func checkValue(val string) bool {
 
 func checkKeyRemain(key string) bool {
 	// ( lcalpha / DIGIT / "_" / "-"/ "*" / "/" )
-	for _, v := range key {
-		if isAlphaNum(byte(v)) {
+	// Iterate over bytes, not runes: every legal key character is a single
+	// ASCII byte, and truncating a multi-byte rune to its low byte would let
+	// characters such as U+0161 (low byte 'a') pass as legal.
+	for i := 0; i < len(key); i++ {
+		v := key[i]
+		if isAlphaNum(v) {
 			continue
 		}
 		switch v {
